@@ -534,7 +534,7 @@ func (e *Exec) operand(fr *Frame, v ssa.Value) Val {
 		if isStructT(deref(x.Type())) && false {
 			return Val{}
 		}
-		return Val{P: &Ptr{kind: pGlobal, gname: sanitize(x.Pkg.Pkg.Name() + "." + x.Name()), gtyp: deref(x.Type())}}
+		return Val{P: &Ptr{kind: pGlobal, gname: sanitize(x.Pkg.Pkg.Name() + "." + x.Name()), gtyp: deref(x.Type()), gNonNil: e.eng.globalNonNil(x)}}
 	case *ssa.Function:
 		return Val{Clo: &Closure{fn: x}}
 	case *ssa.Builtin:
@@ -566,8 +566,8 @@ func (e *Exec) havocVal(st *State, ty types.Type, hint string) Val {
 	var facts []*Term
 	t := e.tm.FreshTyped(hint, ty, &facts)
 	e.assume(st, e.c.And(facts...))
-	if isRefLike(ty) {
-		e.assume(st, e.c.Le(t, st.allocTop))
+	if hasRefs(ty) {
+		e.assume(st, e.oldRefs(st, t, ty))
 	}
 	return Val{T: t}
 }
@@ -816,7 +816,11 @@ func (e *Exec) unop(fr *Frame, st *State, x *ssa.UnOp) {
 			}
 		}
 		e.nilCheck(st, x, v)
-		fr.vals[x] = e.load(st, v, x.Type())
+		lv := e.load(st, v, x.Type())
+		if e.pure == 0 && lv.T != nil && hasRefs(x.Type()) && (v.P == nil || v.P.kind != pCell) {
+			e.assume(st, e.oldRefs(st, lv.T, x.Type()))
+		}
+		fr.vals[x] = lv
 	case token.NOT:
 		fr.vals[x] = Val{T: c.Not(v.T)}
 	case token.SUB:
@@ -960,8 +964,8 @@ func (e *Exec) lookup(fr *Frame, st *State, x *ssa.Lookup) {
 		val := c.Select(e.heapGet(st, vn, arrSort("Int", arrSort(ks, vs))), xv.T)
 		has := c.Select(dom, iv.T)
 		v := c.Ite(has, e.typed(c.Select(val, iv.T), mt.Elem()), e.tm.Zero(mt.Elem()))
-		if isRefLike(mt.Elem()) && !iv.T.bound {
-			e.assume(st, c.Le(c.Select(val, iv.T), st.allocTop))
+		if hasRefs(mt.Elem()) && !iv.T.bound && e.pure == 0 {
+			e.assume(st, e.oldRefs(st, c.Select(val, iv.T), mt.Elem()))
 		}
 		if x.CommaOk {
 			fr.vals[x] = Val{Tup: []Val{{T: v}, {T: has}}}
@@ -1053,8 +1057,8 @@ func (e *Exec) next(fr *Frame, st *State, x *ssa.Next) {
 	val := c.Select(e.heapGet(st, vn, arrSort("Int", arrSort(ks, vs))), m)
 	e.assume(st, c.Implies(ok, c.Select(dom, k.T)))
 	v := e.typed(c.Select(val, k.T), mt.Elem())
-	if isRefLike(mt.Elem()) {
-		e.assume(st, c.Le(v, st.allocTop))
+	if hasRefs(mt.Elem()) {
+		e.assume(st, e.oldRefs(st, v, mt.Elem()))
 	}
 	fr.vals[x] = Val{Tup: []Val{{T: ok}, k, {T: v}}}
 	e.note("range over map abstracted (arbitrary key each iteration)")
